@@ -40,16 +40,56 @@ class LiveServer(object):
         self.stop()
 
 
+class RemoteSim(object):
+    """a second simulator in its own process (the real `python -m cpppo.server.enip.main'): the target of routed requests"""
+
+    def __init__(self, tagtexts):
+        import os
+        import re
+        import subprocess
+        import sys
+        from . import core
+        env = dict(os.environ)
+        root = os.environ.get("CPPPO_ROOT") or "/repo"
+        if os.path.basename(os.path.normpath(root)) == "cpppo":
+            env["PYTHONPATH"] = os.path.dirname(os.path.normpath(root)) + os.pathsep + env.get("PYTHONPATH", "")
+        self.proc = subprocess.Popen([sys.executable, "-m", "cpppo.server.enip", "--no-config", "-A", "--no-udp", "--address", "127.0.0.1:0"] + list(tagtexts),
+                                     stdout=subprocess.PIPE, stderr=subprocess.DEVNULL, env=env, universal_newlines=True, cwd="/")
+        self.address = None
+        t0 = time.time()
+        while time.time() - t0 < 20:
+            line = self.proc.stdout.readline()
+            if not line:
+                break
+            m = re.search(r"TCP Server address = \('([^']+)', (\d+)\)", line)
+            if m:
+                self.address = (m.group(1), int(m.group(2)))
+                break
+        if not self.address:
+            self.stop()
+            raise RuntimeError("remote simulator did not start")
+
+    def stop(self):
+        try:
+            self.proc.kill()
+            self.proc.wait(5)
+        except Exception:
+            pass
+
+
 class Relay(object):
     """TCP forwarder client <-> server that can cut a direction after exactly k octets (closing both sides), or swallow the
     server's replies entirely.  Records the octets that crossed in each direction."""
 
-    def __init__(self, target, cut_s2c=None, cut_c2s=None, silence=False, drop_frame=None, stall=None):
+    def __init__(self, target, cut_s2c=None, cut_c2s=None, silence=False, drop_frame=None, stall=None, delay=None, every=False):
+        """delay: every server-to-client chunk is held back this many seconds (a slow link); every: the faults apply to every
+        connection, not only the first"""
         """drop_frame = i: the i-th server-to-client frame (0 = first) is swallowed, the connection continues;
         stall = (after_octets, seconds): after that many server-to-client octets, delivery pauses for `seconds'"""
         self.target = target
         self.cut_s2c, self.cut_c2s, self.silence = cut_s2c, cut_c2s, silence
         self.drop_frame, self.stall = drop_frame, stall
+        self.delay, self.every = delay, every
         self.lsock = socket.socket(socket.AF_INET, socket.SOCK_STREAM)
         self.lsock.bind(("127.0.0.1", 0))
         self.lsock.listen(5)
@@ -71,7 +111,7 @@ class Relay(object):
             except OSError:
                 return
             self.conns += 1
-            first = self.conns == 1
+            first = self.conns == 1 or self.every
             threading.Thread(target=self._pump, args=(c, first), daemon=True).start()
 
     def _pump(self, c, faulty):
@@ -105,6 +145,8 @@ class Relay(object):
                     else:
                         if silence:
                             continue
+                        if self.delay:
+                            time.sleep(self.delay)
                         if drop is not None:
                             fbuf += data
                             out = bytearray()
